@@ -100,7 +100,7 @@ def plan_order_check(r, info):
     return out
 
 
-def make_result(rng, cross=None, which=None, kind=None, backend="numba"):
+def make_result(rng, cross=None, which=None, kind=None, backend="numba", layout=None):
     """Returns (result, analyzer, info). which in {'full','single','equalK'}."""
     from speckit.analysis import SpectrumAnalyzer
     cross = rng.random() < 0.6 if cross is None else cross
@@ -126,9 +126,10 @@ def make_result(rng, cross=None, which=None, kind=None, backend="numba"):
         if kw["scheduler"].endswith(":lpsd"):
             kw["Lmin"] = 1      # lpsd ignores Lmin; the analyzer validates a user callable's L against it
     data = np.vstack([x, y]) if cross else x
-    layout = "2xN"
-    if cross and rng.random() < 0.25:
+    if cross and (layout == "Nx2" or (layout is None and rng.random() < 0.25)):
         data = np.column_stack([x, y]); layout = "Nx2"          # the documented one-column-per-channel layout
+    else:
+        layout = "2xN"
     if which == "single" and rng.random() < 0.12:
         kw["olap"] = 0.99                                        # nominal shift below one sample for short segments
     an = SpectrumAnalyzer(data, fs, **resolve_kw(kw))
